@@ -72,6 +72,8 @@ Proof.
     intros Hp. destruct (S Hp) as [S1 S2]. destruct (nfd s); [split; assumption|congruence].
   - unfold pend in U. rewrite H0 in U. constructor; unfold pend; cbn [nenv nfd npcs sigW sigD queue ndel]; lia.
   - unfold pend in U. rewrite H0 in U. constructor; unfold pend; cbn [nenv nfd npcs sigW sigD queue ndel]; lia.
+  - unfold pend in U, S. constructor; unfold pend; cbn [nenv nfd npcs sigW sigD queue ndel]; rewrite count_occ_app; cbn [count_occ];
+      destruct (event_dec EvOther EvRemove) as [X|_]; try discriminate; rewrite Nat.add_0_r; assumption.
 Qed.
 
 Lemma nok0_nok s l : nok0 pre s l -> nok pre s l.
